@@ -5,6 +5,7 @@ import (
 	"fmt"
 	"math/rand"
 	"os"
+	"path/filepath"
 	"sort"
 	"strings"
 	"testing"
@@ -79,6 +80,7 @@ type dbSession struct {
 	Clients [][]dbOp   `json:"clients"`
 	Knobs   schedKnobs `json:"knobs"`
 	NoClose bool       `json:"no_close,omitempty"`
+	RelPath bool       `json:"rel_path,omitempty"` // open the database by a relative base path
 }
 
 type dbCase struct {
@@ -253,7 +255,24 @@ func (r *dbRunner) runSession(si int, s dbSession) (res sessionResult) {
 			MaxAdvances:   200,
 			MaxSteps:      2000000,
 		})
-		db, err := simpledb.NewSimpleDB(r.dir, s.Opts.options()...)
+		base := r.dir
+		if s.RelPath {
+			// the database is opened by a relative path (the worker runs one simulated run at a time, so changing the
+			// process's working directory is safe; every path the harness itself uses is absolute)
+			old, err := os.Getwd()
+			if err == nil {
+				err = os.Chdir(filepath.Dir(r.dir))
+			}
+			if err != nil {
+				panic(err)
+			}
+			defer os.Chdir(old)
+			base = filepath.Base(r.dir)
+			if s.RelPath && len(s.Clients) > 0 && len(s.Clients[0])%2 == 0 {
+				base = "./" + base
+			}
+		}
+		db, err := simpledb.NewSimpleDB(base, s.Opts.options()...)
 		if err != nil {
 			res.OpenErr = err
 			return
